@@ -28,12 +28,20 @@ def register(reg):
     from pyvc.values import VStr, VBuiltin, StrS
     from pyvc.ops import concrete_str
     QUOTE = z3.Function("urllib_quote", StrS, StrS, StrS)     # (text, safe set)
+    UNQUOTE = z3.Function("urllib_unquote", StrS, StrS)
+    from urllib.parse import unquote as _native_unquote
+    reg.builtin_spec("uf_unquote", lambda it, a, k, n: VStr(UNQUOTE(a[0].z)), _native_unquote)
 
     def _quote(interp):
         def impl(it, a, k, n):
             s = it.need(a[0])
             safe = concrete_str(it.need(k.get("safe", a[1] if len(a) > 1 else VStr("/"))).z)
-            return VStr(QUOTE(s.z, z3.StringVal(safe)))
+            r = QUOTE(s.z, z3.StringVal(safe))
+            if "%" not in safe:
+                # percent-encoding with '%' itself encoded is undone by unquote (trusted fact about urllib); with '%'
+                # in the safe set a literal '%41' in the text would be read back as 'A'
+                it.ctx.assume(UNQUOTE(r) == s.z, "urllib:unquote-inverts-quote-when-%-is-encoded")
+            return VStr(r)
         return VBuiltin("urllib.parse.quote", impl)
     reg.overrides["std:urllib.parse.quote"] = _quote
     reg.spec_names["quote"] = VBuiltin("spec:quote", lambda it, a, k, n: VStr(QUOTE((a[0].val if hasattr(a[0], "val") else a[0]).z, a[1].z)))
